@@ -257,8 +257,7 @@ CustomTypes == {"aol.CreateTopic", "aol.AddWriter", "aol.DeleteWriter", "aol.Add
 \* GetSigners of a message, in order
 Signers(m) ==
     CASE m.type \in {"aol.CreateTopic", "aol.AddWriter", "aol.DeleteWriter"} -> <<m.owner>>
-      [] m.type = "aol.AddRecord" -> IF m.feePayer = "none" THEN <<m.writer>>
-                                     ELSE IF m.feePayer = m.writer THEN <<m.writer>> ELSE <<m.feePayer, m.writer>>
+      [] m.type = "aol.AddRecord" -> IF m.feePayer = "none" THEN <<m.writer>> ELSE <<m.feePayer, m.writer>>   \* not de-duplicated (the transaction does that)
       [] m.type \in {"did.Create", "did.Update", "did.Deactivate"} -> <<m.from>>
       [] m.type \in {"pnft.CreateDenom", "pnft.UpdateDenom", "pnft.DeleteDenom", "pnft.TransferDenom",
                      "pnft.Mint", "pnft.Transfer", "pnft.Burn"} -> <<m.actor>>
@@ -275,7 +274,7 @@ Stateless(m) ==
       [] m.type = "pnft.Mint" -> IF m.name = "" THEN "undefined/1" ELSE ""
       [] m.type \in {"bank.Send", "vesting.Create"} -> IF m.amt <= 0 THEN "sdk/10" ELSE ""
       [] m.type = "bank.MultiSend" -> IF m.amt <= 0 THEN "sdk/10" ELSE ""
-      [] m.type \in {"authz.Grant", "authz.Revoke"} -> IF m.granter = m.grantee THEN "authz/8" ELSE ""
+      [] m.type \in {"authz.Grant", "authz.Revoke"} -> IF m.granter = m.grantee THEN "authz/7" ELSE ""
       [] OTHER -> ""
 
 Apply(m, s, now) ==
